@@ -27,6 +27,7 @@ def run_case(case, ctx):
     s = run.solver
     mark = 0
     it = 0
+    shrinks = 0
     nmax = case['maxiter'] + 3
     msg = None
     for b in range(nmax):
@@ -34,9 +35,12 @@ def run_case(case, ctx):
             run.con = lab.Constraint(con_spec)
             s.SetConstraints(run.con)
             mark = run.cost.ncalls()
+        n0 = run.cost.ncalls()
         msg = run.step()
         if len(run.callbacks) > it:
             it = len(run.callbacks)
+            if it >= 2 and run.kind == 'NM' and run.cost.ncalls() - n0 >= run.dim + 2:
+                shrinks += 1          # reflection + contraction + one evaluation per shrunk vertex
             if run.con is not None:
                 for j in range(mark, run.cost.ncalls()):
                     x = run.cost.calls[j][0]
@@ -53,6 +57,8 @@ def run_case(case, ctx):
         ctx.expect(len(sh) > 0 and lab.fvec(sh[-1]) == lab.fvec(s.bestSolution), 'C03.result',
                    lambda: dict(solver=run.kind, note='solution_history[-1] != bestSolution after the stop',
                                 last=lab.fvec(sh[-1]) if len(sh) else None, best=lab.fvec(s.bestSolution)))
+    if run.kind == 'NM' and shrinks:
+        ctx.label('nm-shrink')
     ctx.label('solver:' + run.kind, 'con:' + con_spec['kind'], 'inplace' if con_spec.get('inplace') else 'pure',
               'ret:' + con_spec.get('ret', 'same'))
     if late: ctx.label('late-install')
@@ -90,12 +96,38 @@ def cases(draw, tier):
     return cfg
 
 
+@st.composite
+def shrink_cases(draw, tier):
+    """Nelder-Mead on a rugged / quantised cost with a grid constraint on every coordinate (a feasible set that is not
+    convex: the midpoint of two grid points an odd number of steps apart is off the grid), run long enough for shrink
+    steps; observed at every boundary, so a shrunk vertex that becomes the best one is seen whichever iteration it is"""
+    cfg = draw(configs(tier, solvers=('NM',), need_constraint=True, allow_reducer=False, symbolic=False))
+    dim = cfg['dim']
+    if cfg['init']['kind'] != 'point' or draw(st.booleans()):
+        cfg['init'] = dict(kind='point', x0=[draw(st.sampled_from([0.33, 2.7, -2.64, 1.2, -0.4, -2.79, -3.2, 3.41, -1.89]))
+                                            for _ in range(dim)])
+    cfg['cost'] = draw(lab.cost_specs(dim, families=('rast', 'rast', 'stair', 'cos', 'rosen')))
+    b = cfg.get('bounds')
+    box = (b['lo'], b['hi']) if b else None
+    g = draw(st.sampled_from([0.5, 0.25, 1.0, 0.125]))
+    spec = dict(kind='round', i=0, g=g, all=True, inplace=draw(st.booleans()), ret=draw(st.sampled_from(['same', 'list', 'array'])))
+    if box is not None and not lab.box_compatible(spec, *box):
+        cfg.pop('bounds')
+    cfg['constraint'] = spec
+    cfg['maxiter'] = draw(st.integers(10, 40))
+    cfg['maxfun'] = None
+    cfg['term'] = 'never'
+    return cfg
+
+
 def _kf_f8(case, subcheck, detail):
     return bool(case.get('reducer')) and case['reducer']['kind'] in ('sum', 'add2') and bool(case.get('penalty')) \
         and subcheck == 'C03.result' and isinstance(detail, dict) and 'objective' in detail
 
 
 TESTS = [Test('run', run_case, strategy=lambda tier: cases(tier),
-              examples={'quick': 8000, 'thorough': 120000})]
+              examples={'quick': 8000, 'thorough': 120000}),
+         Test('nm_shrink', run_case, strategy=lambda tier: shrink_cases(tier),
+              examples={'quick': 3000, 'thorough': 60000})]
 
 KNOWN = {'F8-sum-reducer-counts-penalty-per-component': _kf_f8}
